@@ -14,6 +14,14 @@ from .rule import resolve_forward_type
 __parsers__ = {}
 
 
+def _differ(a, b) -> bool:
+    # two values given for one field: comparing raw input may raise (a signaling Decimal NaN)
+    try:
+        return bool(a != b)
+    except Exception:  # noqa
+        return a is not b
+
+
 class BaseParser:
     options_cls = Options
     parser_field_cls = ParserField
@@ -481,7 +489,7 @@ class BaseParser:
             if not options.ignore_alias_conflicts:
                 if name in provided:  # or (excluded_keys and name in excluded_keys):
                     # compare the given values (as field_first_parse does), not the parsed result with a raw value
-                    if provided[name] != value:
+                    if _differ(provided[name], value):
                         context.handle_error(exc.AliasConflictError(item=name, value=value))
                     continue
                 provided[name] = value
@@ -558,7 +566,7 @@ class BaseParser:
                 k = str(k)
                 if k.lower() in self.case_insensitive_names:
                     lk = k.lower()
-                    if lk in _data and _data[lk] != v:
+                    if lk in _data and _differ(_data[lk], v):
                         field = self.get_field(lk)
                         if field:
                             # a value that is not taken as input can not conflict (and does not win)
@@ -604,7 +612,7 @@ class BaseParser:
                         value = data[alias]
                         if options.ignore_alias_conflicts:
                             break
-                    elif data[alias] != value:
+                    elif _differ(data[alias], value):
                         context.handle_error(exc.AliasConflictError(item=name, value=data[alias]))
                         break
 
